@@ -17,7 +17,8 @@ EXPECT_ENTERED = ['Client._flush_pipeline', 'Client.mailfrom', 'Client.rcptto',
 BOUNDS = {
     'quick': 'client programs: (A) banner EHLO MAIL RCPTxn DATA content QUIT, '
              '(B) ... RCPT RSET MAIL RCPT DATA empty-content QUIT, (C) custom '
-             'command + NOOP + MAIL + RSET + QUIT; n<=2 recipients; SMTP and '
+             'command + NOOP + MAIL + RSET + QUIT; n<=2 recipients (LMTP also '
+             'the same address twice); SMTP and '
              'LMTP; PIPELINING advertised or not; any ONE reply of the script '
              'is symbolic (3-digit code, first digit 2..5, 1..3 lines of one '
              'symbolic printable character each; EHLO: one line + the '
@@ -52,6 +53,11 @@ def cells(tier):
                     out.append({'prog': prog, 'lmtp': lmtp, 'pipe': pipe,
                                 'n': n, 'c': 1, 'chars': 1 if q else 2,
                                 'nsym': 1 if q else 2})
+    for pipe in (0, 1):
+        # the same address given to RCPT twice (LMTP owes one end-of-data
+        # reply per accepted RCPT command, not per distinct address)
+        out.append({'prog': 'A', 'lmtp': 1, 'pipe': pipe, 'n': 2, 'c': 1,
+                    'chars': 1, 'nsym': 1, 'dup': 1})
     return out
 
 
@@ -192,7 +198,7 @@ def run(cell):
     ScriptedServer.__init__(srv, lmtp, make_reply, cuts)
     client = (LmtpClient if lmtp else Client)(srv, ('192.0.2.1', 25))
     got = []          # (script kind expected, Reply object, options)
-    rcpts = ['r%d@x' % i for i in range(n)]
+    rcpts = ['r%d@x' % (0 if cell.get('dup') else i) for i in range(n)]
     lm_pairs = []
     info = dict(prog=cell['prog'], lmtp=lmtp, pipe=pipe, n=n, cuts=cuts)
     try:
